@@ -39,34 +39,39 @@ theorem vm_step_total (rec : VmCtx → Chunk → State → RunRes) (env : Env) (
   case writeText t => rfl
   case writeTop => exact stepWriteTop_noPanic ht harity hsp
   case set n g => exact stepSet_noPanic n g harity
-  case include_ n => exact stepInclude_noPanic n hr
+  case include_ n => exact stepInclude_noPanic n (fun _ _ => hr.1 _ _ _)
   case buildMap n => exact stepBuildMap_noPanic n harity
   case buildList n => exact stepBuildList_noPanic n harity
   case buildMapWithSpreads flags => exact stepBuildMapWithSpreads_noPanic flags ht harity hsp
   case buildListWithSpreads flags => exact stepBuildListWithSpreads_noPanic flags ht harity hsp
   case callFunction n =>
     exact stepCallFunction_noPanic n ht hnames harity (hown trivial)
-      (fun hne => hkw (by simpa using hne)) hbl hb hr
+      (fun hne => hkw (by simpa using hne)) hbl hb
+      (fun _ _ _ _ _ _ _ _ _ _ _ _ _ _ _ => ⟨hr.1 _ _ _, fun _ h => hr.2 _ _ _ _ h⟩)
   case renderComponent n hasBody =>
-    exact stepComponent_noPanic n hasBody ht hnames harity (hown trivial) (hkw trivial) hr
+    exact stepComponent_noPanic n hasBody ht hnames harity (hown trivial) (hkw trivial)
+      (fun _ _ _ _ => hr.1 _ _ _)
   case applyFilter n =>
     exact stepFilterOrTest_noPanic false n ht (by simpa using hnames) harity hsp (hown trivial) (hkw trivial) hb
   case runTest n =>
     exact stepFilterOrTest_noPanic true n ht (by simpa using hnames) harity hsp (hown trivial) (hkw trivial) hb
-  case renderBlock n => exact stepRenderBlock_noPanic n hr
+  case renderBlock n => exact stepRenderBlock_noPanic n (fun _ _ _ => hr.1 _ _ _)
   case jump t => rfl
   case popJumpIfFalse t =>
+    unfold stepPopJumpIfFalse
     rcases hs : st.stack with _ | ⟨⟨a, sa⟩, rest⟩
     · simp [hs] at harity
     · simp only; split <;> rfl
   case jumpIfFalseOrPop t =>
+    unfold stepJumpOrPop
     rcases hs : st.stack with _ | ⟨⟨a, sa⟩, rest⟩
     · simp [hs] at harity
-    · simp only; split <;> rfl
+    · simp only; split <;> (try split) <;> rfl
   case jumpIfTrueOrPop t =>
+    unfold stepJumpOrPop
     rcases hs : st.stack with _ | ⟨⟨a, sa⟩, rest⟩
     · simp [hs] at harity
-    · simp only; split <;> rfl
+    · simp only; split <;> (try split) <;> rfl
   case capture => rfl
   case endCapture => exact stepEndCapture_noPanic (hcaps trivial)
   case startIterate kv compr => exact stepStartIterate_noPanic kv compr ht harity hsp
